@@ -152,6 +152,19 @@ class Gen:
             if depth > 3 and (f.default is not dataclasses.MISSING or f.default_factory is not dataclasses.MISSING):
                 continue
             kw[f.name] = self.value(tp, depth)
+        if self.v == 5:
+            # "absent" instances: what extractors build when the source has no value -- None in every field whose default is
+            # something else (DocMetadata.num_pages from a .doc without counts, EmailContent.reply_to from a .msg without Reply-To);
+            # a None the constructor / __post_init__ of the class does not accept is left out
+            for f in dataclasses.fields(cls):
+                has_default = (f.default is not dataclasses.MISSING and f.default is not None) or f.default_factory is not dataclasses.MISSING
+                if f.init and has_default and f.name in kw:
+                    trial = dict(kw, **{f.name: None})
+                    try:
+                        cls(**trial)
+                    except Exception:  # noqa
+                        continue
+                    kw = trial
         return cls(**kw)
 
 
@@ -335,7 +348,7 @@ def _first_diff(a, b, path="$"):
     return "" if a == b else f"{path}: {a!r:.80} vs {b!r:.80}"
 
 
-def type_directed_scope(marker_keys=False, variants=(0, 1, 2, 3, 4)):
+def type_directed_scope(marker_keys=False, variants=(0, 1, 2, 3, 4, 5)):
     """Every registered dataclass x several variants; -> (first failure or None, number of instances checked)."""
     from sharepoint2text.parsing.extractors.serialization import _get_type_registry
     n = 0
@@ -1270,7 +1283,7 @@ def run_scope(name):
         return r, f"{n} calls: _serialize_for_json / serialize_extraction on values of every kind (nested one level), _deserialize_value on 32 JSON documents x 42 hints, _deserialize_dataclass, deserialize_extraction, _unwrap_optional -- against the executable SER/DESER"
     if name == "type-directed-roundtrip":
         r, n = type_directed_scope(False)
-        return r, f"{n} instances: 5 type-directed variants of every registered dataclass, strings from a vocabulary with the markers, BOM, whitespace, lone surrogate, control and non-BMP characters"
+        return r, f"{n} instances: 6 type-directed variants of every registered dataclass (one with None in every field whose default is not None), strings from a vocabulary with the markers, BOM, whitespace, lone surrogate, control and non-BMP characters"
     if name == "base64-helpers-boundary-sizes":
         r = b64_helpers_scope()
         if r and r["target"].endswith("_bytes_to_base64"):
